@@ -11,7 +11,7 @@ import (
 )
 
 func init() {
-	register("C06", c06Reparent, c06Params, c06Payload,
+	register("C06", c06Reparent, c06Params, c06Payload, c06Restore, c06Atomic,
 		// the chain stored at a route is what dispatch runs: the chain builder rules of C12
 		c12Const, c12Assembly)
 }
